@@ -529,6 +529,105 @@ func history(s shape, q, t vrt.Bounds) *vrt.Scenario {
 		}}
 }
 
+// pair: two environments (one critical task each, different hosts and detectors) are taken through the same
+// transition at the same time. "Every critical task of ITS workflow": what the other environment's task does
+// must not decide this environment's transition, in either direction.
+func pairScenario(op string, q, t vrt.Bounds) *vrt.Scenario {
+	alpha := []coresim.Outcome{coresim.OK, coresim.ErrSource, coresim.Silent, coresim.SlowReply}
+	wfs := [2]string{"c02-c", "c02-pb"}
+	classes := [2]string{"c02c0", "c02pb0"}
+	var (
+		assign  [2]coresim.Outcome
+		gotSt   [2]string
+		gotErr  [2]error
+		finalSt [2]string
+		reached bool
+		setup   string
+	)
+	return &vrt.Scenario{Name: "pair-" + op, Prop: "C02", Quick: q, Thorough: t,
+		Doc:            "two environments in " + op + " at the same time, every pair of outcomes from {ok, error reply, silent, slow reply}",
+		Setup:          coresim.ResetStore,
+		Cfg:            vrt.Config{Preempt: coresim.InterComponent, NoLockPoints: true, FreeSwitchCost: true, Horizon: 30 * time.Minute},
+		DeadlockClause: "request-hangs:two-environments:" + op, PanicClause: "panic",
+		NonTrivial: func(x *vrt.Exec) bool { return reached },
+		Body: func() {
+			reached, setup = false, ""
+			for k := range assign {
+				assign[k] = alpha[vrt.ChooseFree(len(alpha), "outcome")]
+				gotSt[k], gotErr[k], finalSt[k] = "", nil, ""
+			}
+			armed := false
+			m := coresim.NewMaster(agents()...)
+			m.Behaviour = func(t *coresim.SimTask, kind string) coresim.Outcome {
+				if armed && kind == eventOf[op] {
+					for k := range classes {
+						if t.Class == classes[k] {
+							return assign[k]
+						}
+					}
+				}
+				return coresim.OK
+			}
+			w := coresim.NewWorld(m)
+			var ids [2]string
+			for k := range wfs {
+				id, st, err := w.Create(wfs[k], nil)
+				if err != nil || st != "CONFIGURED" {
+					setup = fmt.Sprintf("creating %s: state=%s err=%v", wfs[k], st, err)
+					vrt.Logf("setup failed: %s", setup)
+					return
+				}
+				ids[k] = id
+			}
+			armed, reached = true, true
+			done := 0
+			for k := range ids {
+				k := k
+				vrt.GoFG(fmt.Sprintf("client%d", k), func() {
+					gotSt[k], gotErr[k] = w.Control(ids[k], opOf[op])
+					done++
+				})
+			}
+			vrt.WaitUntil("both-requests-answered", func() bool { return done == 2 })
+			vrt.Quiesce("after-requests")
+			vrt.Sleep(2 * time.Second)
+			vrt.Quiesce("settled")
+			for k := range ids {
+				finalSt[k], _ = w.EnvState(ids[k])
+			}
+			vrt.Logf("pair %s assign=[%s %s] -> A: err=%v state=%s final=%s | B: err=%v state=%s final=%s", op, oname(assign[0]), oname(assign[1]),
+				gotErr[0] != nil, gotSt[0], finalSt[0], gotErr[1] != nil, gotSt[1], finalSt[1])
+		},
+		Check: func(x *vrt.Exec) (out []vrt.Violation) {
+			if setup != "" {
+				if strings.Contains(setup, "workflow deployment timed out") {
+					return []vrt.Violation{{Clause: "deploy-timed-out-although-every-task-reported-running", Detail: setup}}
+				}
+				return []vrt.Violation{{Clause: "setup-step-failed:" + op, Detail: setup}}
+			}
+			if !reached {
+				return nil
+			}
+			for k := range assign {
+				other := oname(assign[1-k])
+				ctx := fmt.Sprintf("%s: environment %d of 2, own task %s, the other environment's task %s: err=%v state=%s final=%s\n%s", op, k, oname(assign[k]), other, gotErr[k], gotSt[k], finalSt[k], strings.Join(x.Log, "\n"))
+				if okClass(assign[k]) {
+					if gotErr[k] != nil || gotSt[k] != dest[op] || finalSt[k] != dest[op] {
+						out = append(out, vrt.Violation{Clause: "transition-failed-though-own-critical-task-ok:" + op + ":other-environment-" + other, Detail: ctx})
+					}
+				} else {
+					if gotErr[k] == nil || gotSt[k] == dest[op] {
+						out = append(out, vrt.Violation{Clause: "success-despite-critical-failure:" + op + ":" + oname(assign[k]) + ":other-environment-" + other, Detail: ctx})
+					}
+					if finalSt[k] != "ERROR" {
+						out = append(out, vrt.Violation{Clause: "not-in-ERROR-after-failed-transition:" + op + ":" + finalSt[k] + ":other-environment-" + other, Detail: ctx})
+					}
+				}
+			}
+			return
+		}}
+}
+
 // zero tasks: a workflow consisting of one (non-critical) integration call only.
 func emptyScenario() *vrt.Scenario {
 	var results []string
@@ -587,6 +686,8 @@ func main() {
 	for _, s := range shapes {
 		specs = append(specs, specOf(s))
 	}
+	// second environment of the pair scenarios: one critical task on hostB (its own detector)
+	specs = append(specs, coresim.WorkflowSpec{Name: "c02-pb", Hosts: []string{"hostB"}, Tasks: []coresim.TaskSpec{{Name: "t0", Class: "c02pb0", Mode: "direct", Critical: true, Host: "hostB"}}})
 	coresim.GlobalSetup(specs...)
 	var scs []*vrt.Scenario
 	for _, s := range shapes {
@@ -605,6 +706,9 @@ func main() {
 		if nonCritical {
 			scs = append(scs, history(s, vrt.Bounds{Dev: 0, Seconds: 100}, vrt.Bounds{Dev: 1, Seconds: 120}))
 		}
+	}
+	for _, op := range []string{"START", "RESET"} {
+		scs = append(scs, pairScenario(op, vrt.Bounds{Dev: 0, Seconds: 100}, vrt.Bounds{Dev: 1, Seconds: 120}))
 	}
 	scs = append(scs, emptyScenario())
 	vrt.Main(scs)
